@@ -1,6 +1,7 @@
 (* C05 — the reader is a faithful cursor over the file's point sequence. *)
 From Coq Require Import ZArith List Bool.
-From LasV Require Import Lib.Base Gen.GenCursor Model.Cursor Proofs.CursorProofs Model.CursorBytes Proofs.CursorBytesProofs.
+From LasV Require Import Lib.Base Gen.GenCursor Model.Cursor Proofs.CursorProofs Model.CursorBytes Proofs.CursorBytesProofs
+  Model.CursorFault Proofs.CursorFaultProofs.
 Import ListNotations.
 Open Scope Z_scope.
 
@@ -48,9 +49,60 @@ Theorem C05_stride_necessary : forall off L st n, 2 <= n -> st <> L ->
 Proof. exact stride_necessary. Qed.
 Print Assumptions C05_stride_necessary.
 
+(* ---- histories with faults (the source raises once during a call, before consuming anything; the caller goes on) and with
+   caller operations on the objects the reader handed out (Model/CursorFault.v) ---- *)
+
+(* a call during which the source raised leaves the cursor AND the source position where they were (record and byte level);
+   a call that does not reach the source (nothing left to read, refused seek target) cannot see the fault *)
+Theorem C05_failed_call_is_noop : forall s op, touches (c_n s) (c_read s) op = true -> fstep s (FFail op) = (s, [OErr EOther]).
+Proof. exact fault_noop. Qed.
+Print Assumptions C05_failed_call_is_noop.
+Theorem C05_failed_call_is_noop_bytes : forall off st s op,
+  touches (b_n s) (b_read s) op = true -> bfstep off st s (FFail op) = (s, [BErr EOther]).
+Proof. exact fault_noop_bytes. Qed.
+Print Assumptions C05_failed_call_is_noop_bytes.
+Theorem C05_fault_unseen : forall s op, touches (c_n s) (c_read s) op = false -> fstep s (FFail op) = fstep s (FOk op).
+Proof. exact fault_unseen. Qed.
+Print Assumptions C05_fault_unseen.
+
+(* every history with faults and caller operations refines the abstract cursor in which a failed call is a no-op *)
+Theorem C05_refines_with_faults : forall n fops, 0 <= n ->
+  map norm_out (snd (frun (mkC n 0 0) fops)) = map norm_out (snd (sfrun (mkSp n 0) fops))
+  /\ Forall (slice_in_bounds n) (snd (frun (mkC n 0 0) fops))
+  /\ c_src (fst (frun (mkC n 0 0) fops)) = c_read (fst (frun (mkC n 0 0) fops)).
+Proof. exact fault_refines. Qed.
+Print Assumptions C05_refines_with_faults.
+
+(* what such a history delivers is exactly what the history WITHOUT the failed calls and the caller operations delivers: no record
+   is lost, none is delivered twice, and the reader ends in the same state *)
+Theorem C05_faults_transparent : forall s fops,
+  fst (frun s fops) = fst (crun s (erase s fops))
+  /\ filter (fun o => negb (is_fault o)) (snd (frun s fops)) = snd (crun s (erase s fops)).
+Proof. exact fault_erasure. Qed.
+Print Assumptions C05_faults_transparent.
+
+(* byte level: the bytes of the records the cursor names; after every call, failed or not, the stream stands at the cursor's record *)
+Theorem C05_bytes_with_faults : forall off L n fops, 0 <= n ->
+  snd (bfrun off L (mkB n 0 off) fops) = map (out_bytes off L) (snd (frun (mkC n 0 0) fops))
+  /\ b_pos (fst (bfrun off L (mkB n 0 off) fops)) = off + b_read (fst (bfrun off L (mkB n 0 off) fops)) * L.
+Proof. exact fault_bytes. Qed.
+Print Assumptions C05_bytes_with_faults.
+
+(* "ask the source, THEN advance the cursor" is necessary: a reader that advances first no longer delivers the file after one failed read *)
+Theorem C05_cursor_after_source_necessary : forall n k, 1 <= n -> 1 <= k ->
+  map norm_out (snd (frun_early (mkC n 0 0) [FFail (CRead k); FOk CReadAll]))
+  <> map norm_out (snd (sfrun (mkSp n 0) [FFail (CRead k); FOk CReadAll])).
+Proof. exact early_cursor_loses. Qed.
+Print Assumptions C05_cursor_after_source_necessary.
+
 Example C05_nonvacuous :
   snd (crun (mkC 10 0 0) [CRead 3; CSeek (-2) 2; CNext 5; CNext 5; CSeek 10 0; CSeek 4 1; CReadAll])
   = [OSlice 0 3; OSeek 8; OSlice 8 10; OErr EStop; OErr EIndex; OErr EIndex; OSlice 10 10]
   /\ snd (brun 300 37 (mkB 10 0 300) [CRead 3; CSeek (-2) 2; CNext 5; CNext 5; CSeek 4 0; CReadAll])
-  = [BBytes 300 411; BSeek 8; BBytes 596 670; BErr EStop; BSeek 4; BBytes 448 670].
-Proof. vm_compute. split; reflexivity. Qed.
+  = [BBytes 300 411; BSeek 8; BBytes 596 670; BErr EStop; BSeek 4; BBytes 448 670]
+  /\ snd (bfrun 300 37 (mkB 10 0 300) [FOk (CRead 4); FFail (CRead 5); FCaller; FOk (CRead 5); FFail (CSeek 1 1); FFail (CSeek 1 0);
+                                        FOk (CSeek 1 1); FFail CReadAll; FOk CReadAll; FFail CReadAll; FFail (CNext 2)])
+  = [BBytes 300 448; BErr EOther; BBytes 448 633; BErr EIndex; BErr EOther; BErr EIndex; BErr EOther; BBytes 633 670; BBytes 670 670; BErr EStop]
+  /\ erase (mkC 10 0 0) [FOk (CRead 4); FFail (CRead 5); FCaller; FOk (CRead 5); FFail CReadAll; FOk CReadAll; FFail CReadAll]
+  = [CRead 4; CRead 5; CReadAll; CReadAll].
+Proof. vm_compute. repeat split; reflexivity. Qed.
